@@ -24,7 +24,9 @@ pub struct Config {
     pub nkeys: usize,
     /// initial population: 0 = empty directory; 1 = every key present, a day old, distinct ages, all read since insertion
     /// (so that the first maintenance re-queues several entries at once); 2 = the same, none read; 3 = entries put there
-    /// by another tool (cp, rsync, tar): mtime a day old at .9 s of its second, atime 0.4 s earlier in the same second
+    /// by another tool (cp, rsync, tar): mtime a day old at .9 s of its second, atime 0.4 s earlier in the same second;
+    /// 4 = (sharded front-end) every key present, unread, in its *secondary* shard, which is then the directory observed:
+    /// marking operations must find and mark the entries there (no maintenance symbols: nothing leaves that directory)
     pub init: u8,
 }
 
@@ -37,7 +39,7 @@ impl Config {
             self.gran_ns / 1_000_000,
             self.step_ns / 1_000_000,
             self.nkeys,
-            ["", "/all-read", "/all-unread", "/foreign"][self.init as usize]
+            ["", "/all-read", "/all-unread", "/foreign", "/in-secondary-shard"][self.init as usize]
         )
     }
     fn to_json(&self) -> Value {
@@ -103,8 +105,10 @@ fn alphabet(cfg: &Config) -> Vec<Sym> {
         v.push(Sym::GetDrop(k));
         v.push(Sym::Touch(k));
     }
-    for c in 0..3u8 {
-        v.push(Sym::Maintain(c));
+    if cfg.init != 4 {
+        for c in 0..3u8 {
+            v.push(Sym::Maintain(c));
+        }
     }
     v
 }
@@ -143,7 +147,7 @@ fn open_live(cfg: &Config) -> Live {
         checker: ops::Checker::None,
         auto_sync: true,
     };
-    let home = if cfg.front == 1 { dirs.write.join(ops::shard_dir_name(0)) } else { dirs.write.clone() };
+    let home = if cfg.front == 1 { dirs.write.join(ops::shard_dir_name(if cfg.init == 4 { 1 } else { 0 })) } else { dirs.write.clone() };
     if cfg.front == 2 {
         let old = base as i128 - 86_400_000_000_000;
         world::plant(&dirs.reads[0].join("other"), b"bystander", 0o444, old - 120_000_000_000, old);
@@ -538,6 +542,10 @@ pub fn configs(tier: Tier) -> Vec<(Config, usize)> {
         for (f, p, gi) in [(0u8, 0usize, 0usize), (1, 1, 0), (2, 2, 1), (0, 2, 1), (2, 0, 0)] {
             v.push((Config { front: f, policy: p, gran_ns: g[gi].0, step_ns: g[gi].1, nkeys: 2, init: 3 }, 3));
         }
+        // sharded: entries living in their secondary shard, looked up and written through fresh handles
+        for (p, gi) in [(0usize, 0usize), (1, 2), (2, 1)] {
+            v.push((Config { front: 1, policy: p, gran_ns: g[gi].0, step_ns: g[gi].1, nkeys: 2, init: 4 }, 3));
+        }
     } else {
         for f in 0..3u8 {
             for p in 0..3usize {
@@ -552,6 +560,9 @@ pub fn configs(tier: Tier) -> Vec<(Config, usize)> {
                     }
                     if *gn == 1 {
                         v.push((Config { front: f, policy: p, gran_ns: *gn, step_ns: *st, nkeys: 2, init: 3 }, 5));
+                    }
+                    if f == 1 {
+                        v.push((Config { front: f, policy: p, gran_ns: *gn, step_ns: *st, nkeys: 2, init: 4 }, 5));
                     }
                 }
             }
@@ -691,7 +702,8 @@ pub fn run(tier: Tier, shard: Shard, rep: &mut Report) {
         entry exists, and be re-queued when it was the oldest. Quick: a pairwise-covering dozen of the 54 configurations to depth 4 from \
         the empty directory, plus six configurations to depth 3 from a directory already holding three day-old entries (all read since \
         insertion, so that one maintenance re-queues several entries, or none read) and five from a directory holding entries made by \
-        other tools (atime a fraction of a second behind mtime, inside the same second); thorough: all of them to depth 8 or fixpoint, and \
+        other tools (atime a fraction of a second behind mtime, inside the same second) and three (sharded) from entries living in \
+        their secondary shard; thorough: all of them to depth 8 or fixpoint, and \
         all populated starts to depth 4. Plus: touch / put-on-existing / get racing with a set of the same key (all schedules with \
         <= 2 preemptions): the entry that ends up holding the set's value never carries the replaced entry's modification time. And: every call of a marking operation failing once in turn (3 front-ends x 3 atime policies): an operation \
         that still reports success has set the mark and left the mtime alone. \
